@@ -1,5 +1,6 @@
 import Drivers.PenShow
 import DimodModel.Generators
+import DimodModel.RandomGen
 open Wire Pen PenShow Gen
 
 /-! Line-protocol driver for the C17 generator models (`DimodModel/Generators.lean`).
@@ -12,6 +13,12 @@ open Wire Pen PenShow Gen
     knap <capacity> <values> <weights>
     mknap <values> <weights> <capacities>
     binp <capacity> <weights>
+    rnd graph <vt> <vars> <edges> <stream>          uniform / randint      (stream: the scalars the NumPy generator returned, in order)
+    rnd ranr <r> <vars> <edges> <stream>            ran_r / power_r        → ok <model> #<scalars consumed>
+    rnd doped <edges> <stream>
+    rnd gnm <vt> <labels> <num_interactions> <stream>
+    rnd gnp <vt> <labels> <p> <stream>
+    rnd knap <n> <ratio> <stream> | rnd mknap <n> <bins> <stream> | rnd binp <n> <capacity> <stream>
 -/
 
 def kindOf? (s : String) : Option GateKind :=
@@ -94,6 +101,64 @@ def answer (line : String) : String :=
   | ["binp", cap, weights] =>
     match parseRat? cap, parseRats weights with
     | some cap, some weights => showGCqm (binPacking weights cap)
+    | _, _ => "bad-op"
+  | ["rnd", kind, a, b, c, stream] =>
+    match (if stream = "-" then some [] else parseRats stream) with
+    | none => "bad-op"
+    | some draws =>
+      let σ : Rnd.Stream := fun i => draws.getD i 0
+      if kind = "graph" then
+        match vtOf? a, parseLabels b, parseEdges c with
+        | some vt, some vars, some edges => let r := Rnd.graphGen vars edges σ; showBag vt r.1 ++ s!" #{r.2}"
+        | _, _, _ => "bad-op"
+      else if kind = "ranr" then
+        match a.toNat?, parseLabels b, parseEdges c with
+        | some r, some vars, some edges =>
+          match Rnd.ranR r vars edges σ with
+          | some res => showBag .spin res.1 ++ s!" #{res.2}"
+          | none => "err"
+        | _, _, _ => "bad-op"
+      else if kind = "gnm" then
+        match vtOf? a, parseLabels b, c.toNat? with
+        | some vt, some labels, some m => let r := Rnd.gnm labels m σ; showBag vt r.1 ++ s!" #{r.2}"
+        | _, _, _ => "bad-op"
+      else if kind = "gnp" then
+        match vtOf? a, parseLabels b, parseRat? c with
+        | some vt, some labels, some p => let r := Rnd.gnp labels p σ; showBag vt r.1 ++ s!" #{r.2}"
+        | _, _, _ => "bad-op"
+      else "bad-op"
+  | ["rnd", kind, a, b, stream] =>
+    match (if stream = "-" then some [] else parseRats stream) with
+    | none => "bad-op"
+    | some draws =>
+      let σ : Rnd.Stream := fun i => draws.getD i 0
+      if kind = "knap" then
+        match a.toNat?, parseRat? b with
+        | some n, some ratio =>
+          let r := Rnd.randomKnapsack n ratio σ
+          match r.1 with
+          | some q => showGCqm q ++ s!" #{r.2}"
+          | none => "err"
+        | _, _ => "bad-op"
+      else if kind = "mknap" then
+        match a.toNat?, b.toNat? with
+        | some n, some bins =>
+          let r := Rnd.randomMultiKnapsack n bins σ
+          match r.1 with
+          | some q => showGCqm q ++ s!" #{r.2}"
+          | none => "err"
+        | _, _ => "bad-op"
+      else if kind = "binp" then
+        match a.toNat?, parseRat? b with
+        | some n, some cap => let r := Rnd.randomBinPacking n cap σ; showGCqm r.1 ++ s!" #{r.2}"
+        | _, _ => "bad-op"
+      else "bad-op"
+  | ["rnd", "doped", edges, stream] =>
+    match parseEdges edges, (if stream = "-" then some [] else parseRats stream) with
+    | some edges, some draws =>
+      let σ : Rnd.Stream := fun i => draws.getD i 0
+      let r := Rnd.doped edges σ
+      showBag .spin r.1 ++ s!" #{r.2}"
     | _, _ => "bad-op"
   | _ => "bad-op"
 
